@@ -38,6 +38,12 @@ claimed={
  "C20":dict(design="§7 C20",
    text="Bounded symbolic model checking of in-process stream sends with a stalled receiver, using the scheduler's quiescence verdict (no other goroutine can take a step): at most one send per direction completes (a pending header frame occupies the same slot), the next send is blocked but not failed, and it completes when the peer receives, when the handler returns, or when the context ends; all schedules within the pre-emption bound.",
    note="Trusted: engine SSA semantics and scheduler, context model, protobuf clone stub. Number of attempted sends and pre-emptions bounded as stated."),
+ "C10":dict(design="§7 C10",
+   text="Bounded symbolic model checking of makeServerContext / noValuesContext / ClientContext and the context plumbing of in-process Invoke and NewStream: the caller's context is a chain of WithValue layers whose key kinds are symbolic choices (string, struct, pointer, and the keys gRPC itself uses for incoming metadata and the server transport stream), with outgoing metadata (symbolic value, repeated key, -bin value) and an optional deadline; inside the handler every caller value must be invisible, incoming metadata must equal the caller's outgoing metadata, peer and deadline must be right, ClientContext must expose the caller's values, and mutating the handler's metadata copy must not reach the caller.",
+   note="Trusted: engine SSA semantics, context model, grpc metadata/peer packages run from real SSA. Chains longer than the bound are outside the claim; the abstract clock may fire the deadline during the call, those paths are cut here (deadline behaviour is C04's subject)."),
+ "C18":dict(design="§7 C18",
+   text="Bounded symbolic model checking of grpchan's cloner adapters (ProtoCloner, CodecCloner, CloneFunc, CopyFunc, funcCloner, internal.CopyMessage/CloneMessage) on the generated test Message with symbolic bytes, scalars, an optional map entry and nested Any values: the copy equals the source with no residue of the destination's previous content, the source is unchanged, later mutation of either side is invisible to the other, and a destination of another message type or a pointer to a non-protobuf value is refused with an error.",
+   note="Claimed for the adapters' own composition logic only. proto.Clone, dynamic.TryMerge, generated Reset and the codec are contract stubs over the generated structs (structural deep copy, proto3 merge, zeroing, real wire format); the correctness of the protobuf runtime and protoreflect/dynamic themselves, dynamic messages, unknown fields and maps of messages are assumed, not checked."),
 }
 pending_reason="check not built yet (engine layers under construction); see DESIGN.md §9"
 na={}
